@@ -276,13 +276,9 @@ pub proof fn lemma_blob(l: Layout)
         # -------------------------------------------------- Layout
         {"kind": "fn", "file": LY, "name": "known_type_for_size", "impl": r"^impl Layout$", "impl_header": "impl Layout", "impl_name": "Layout",
          "ret": "r",
+         "prim_tokens": {"int": "ty_prim({bytes})"},
          "subst": [
              ("Option<syn::Type>", "Option<Tok>", 1, "R4"),
-             ("syn::parse_quote! { u128 }", "ty_prim(16)", 1, "R4"),
-             ("syn::parse_quote! { u64 }", "ty_prim(8)", 1, "R4"),
-             ("syn::parse_quote! { u32 }", "ty_prim(4)", 1, "R4"),
-             ("syn::parse_quote! { u16 }", "ty_prim(2)", 1, "R4"),
-             ("syn::parse_quote! { u8 }", "ty_prim(1)", 1, "R4"),
          ],
          "ensures": [
              "r.is_some() <==> (size == 1 || size == 2 || size == 4 || size == 8 || size == 16)",
